@@ -20,22 +20,33 @@ def Leaf.str : Leaf → Str
 and variable token the lexer makes, and of every identifier that is not such a keyword) -/
 def Leaf.Ok (a : Leaf) : Prop := isAtomKeyword a.str = false
 
-/-- operators printed by `PT.toks`: everything but bindings (`as`) -/
+/-- operators other than bindings (`as`) -/
 def BinOp.plain (o : BinOp) : Prop := o.isAs = false
 
-/-- a `PT` as an operator tree whose operands are the leaves and the parenthesised subtrees -/
+/-- operators printed by `PT.toks`: all of them; bindings with a variable pattern (`as $x |`) -/
+def BinOp.printable (o : BinOp) : Prop := o.isAs = false ∨ ∃ x, o = .pipe (some (.var x))
+
+/-- is there a binding that is not enclosed in parentheses? (its body is everything to its right) -/
+def PT.openAs : PT → Bool
+  | .bin l o r => o.isAs || l.openAs || r.openAs
+  | _ => false
+
+/-- a `PT` as an operator tree whose operands are the leaves, the parenthesised subtrees, and
+the body of a binding (everything to the right of `as $x |`, which the table does not look into) -/
 def PT.toE : PT → E PT BinOp
   | .leaf a => .atom (.leaf a)
   | .paren t => .atom (.paren t)
-  | .bin l o r => .bin l.toE o r.toE
+  | .bin l o r => if o.isAs then .bin l.toE o (.atom r) else .bin l.toE o r.toE
 
 /-- the parenthesisation includes the parentheses the table requires: wherever an operator
-stands beside an unparenthesised operator, the table's local condition holds -/
+stands beside an unparenthesised operator, the table's local condition holds; a binding
+`l as $x | r` must not stand unparenthesised in a LEFT operand (its body extends to the right as
+far as possible), and nothing is required of its body `r` relative to it -/
 inductive PT.Ok : PT → Prop
   | leaf (a : Leaf) : a.Ok → PT.Ok (.leaf a)
   | paren (t : PT) : PT.Ok t → PT.Ok (.paren t)
-  | bin (l : PT) (o : BinOp) (r : PT) : PT.Ok l → PT.Ok r → o.plain →
-      okL l.toE o → okR o r.toE → PT.Ok (.bin l o r)
+  | bin (l : PT) (o : BinOp) (r : PT) : PT.Ok l → PT.Ok r → l.openAs = false → o.printable →
+      okL l.toE o → (o.isAs = false → okR o r.toE) → PT.Ok (.bin l o r)
 
 /-! ### tokens that may follow an operand -/
 
@@ -146,24 +157,34 @@ theorem binop_homogeneous (o : BinOp) : ra o = raLvl (prec o) := by
   | cmp c => cases c <;> rfl
   | _ => rfl
 
-theorem op_toks (f : Nat) (o : BinOp) (ho : o.plain) (rest : List Token) :
-    op (f + 1) true (o.toks ++ rest) = some (some o, rest) := by
+theorem op_toks (f : Nat) (o : BinOp) (ho : o.printable) (rest : List Token) :
+    op (f + 2) true (o.toks ++ rest) = some (some o, rest) := by
   cases o with
   | pipe p =>
     cases p with
     | none => simp [op, BinOp.toks, Token.simple?]
-    | some p => simp [BinOp.plain, BinOp.isAs] at ho
+    | some p =>
+      rcases ho with ho | ⟨x, ho⟩
+      · simp [BinOp.isAs] at ho
+      · simp only [BinOp.pipe.injEq, Option.some.injEq] at ho
+        subst ho
+        simp [op, BinOp.toks, Token.simple?, pattern, just, Token.is]
   | math m => cases m <;> simp [op, BinOp.toks, Token.simple?, opTable, List.lookup]
   | cmp c => cases c <;> simp [op, BinOp.toks, Token.simple?, opTable, List.lookup]
   | updateMath m => cases m <;> simp [op, BinOp.toks, Token.simple?, opTable, List.lookup]
   | _ => simp [op, BinOp.toks, Token.simple?, opTable, List.lookup]
 
-theorem toks_head_stop (o : BinOp) (ho : o.plain) : ∃ t r, o.toks = t :: r ∧ stopTok t = true := by
+theorem toks_head_stop (o : BinOp) (ho : o.printable) : ∃ t r, o.toks = t :: r ∧ stopTok t = true := by
   cases o with
   | pipe p =>
     cases p with
     | none => exact ⟨_, _, rfl, by decide⟩
-    | some p => simp [BinOp.plain, BinOp.isAs] at ho
+    | some p =>
+      rcases ho with ho | ⟨x, ho⟩
+      · simp [BinOp.isAs] at ho
+      · simp only [BinOp.pipe.injEq, Option.some.injEq] at ho
+        subst ho
+        exact ⟨_, _, rfl, by decide⟩
   | math m => cases m <;> exact ⟨_, _, rfl, by decide⟩
   | cmp c => cases c <;> exact ⟨_, _, rfl, by decide⟩
   | updateMath m => cases m <;> exact ⟨_, _, rfl, by decide⟩
@@ -221,12 +242,10 @@ theorem toks_head_tail (p : PT) : p.toks = p.head.toks ++ tailToks p.tail := by
     rw [ihl, ihr]
     simp [List.append_assoc]
 
-theorem flat_toE (p : PT) : flat p.toE = (.atom p.head, p.tail.map fun oq => (oq.1, E.atom oq.2)) := by
-  induction p with
-  | leaf a => rfl
-  | paren t _ => rfl
-  | bin l o r ihl ihr =>
-    simp only [PT.toE, flat, PT.head, PT.tail, ihl, ihr, List.map_append, List.map_cons]
+theorem openAs_bin {l r : PT} {o : BinOp} (h : (PT.bin l o r).openAs = false) :
+    o.isAs = false ∧ l.openAs = false ∧ r.openAs = false := by
+  simp only [PT.openAs, Bool.or_eq_false_iff] at h
+  exact ⟨h.1.1, h.1.2, h.2⟩
 
 theorem size_pos (p : PT) : 1 ≤ p.size := by
   cases p <;> simp [PT.size] <;> omega
@@ -253,11 +272,11 @@ theorem size_operand (p : PT) :
 def OperandOk (q : PT) : Prop := (∃ a, q = .leaf a ∧ a.Ok) ∨ (∃ t, q = .paren t ∧ PT.Ok t)
 
 theorem ok_operands {p : PT} (h : PT.Ok p) :
-    OperandOk p.head ∧ ∀ oq ∈ p.tail, oq.1.plain ∧ OperandOk oq.2 := by
+    OperandOk p.head ∧ ∀ oq ∈ p.tail, oq.1.printable ∧ OperandOk oq.2 := by
   induction h with
   | leaf a ha => exact ⟨Or.inl ⟨a, rfl, ha⟩, by simp [PT.tail]⟩
   | paren t ht _ => exact ⟨Or.inr ⟨t, rfl, ht⟩, by simp [PT.tail]⟩
-  | bin l o r _ _ ho _ _ ihl ihr =>
+  | bin l o r _ _ _ ho _ _ ihl ihr =>
     refine ⟨ihl.1, ?_⟩
     intro oq hoq
     simp only [PT.tail, List.mem_append, List.mem_cons] at hoq
@@ -270,13 +289,22 @@ theorem ok_canon {p : PT} (h : PT.Ok p) : Canon p.toE := by
   induction h with
   | leaf a _ => exact .atom _
   | paren t _ _ => exact .atom _
-  | bin l o r _ _ _ hl hr ihl ihr => exact .bin ihl ihr hl hr
+  | bin l o r _ _ _ _ hl hr ihl ihr =>
+    simp only [PT.toE]
+    split
+    · exact .bin ihl (.atom _) hl (okR_atom _ _)
+    · rename_i hna
+      exact .bin ihl ihr hl (hr (by simpa using hna))
 
 theorem erase_fold (p : PT) : p.erase = E.fold PT.erase Term.binop p.toE := by
   induction p with
   | leaf a => rfl
   | paren t _ => rfl
-  | bin l o r ihl ihr => simp only [PT.erase, PT.toE, E.fold, ihl, ihr]
+  | bin l o r ihl ihr =>
+    simp only [PT.toE]
+    split
+    · simp only [PT.erase, E.fold, ihl]
+    · simp only [PT.erase, E.fold, ihl, ihr]
 
 theorem wrapAs_plain (tl : List (BinOp × Term)) (h : ∀ ot ∈ tl, ot.1.isAs = false) : wrapAs tl = tl := by
   induction tl with
@@ -287,27 +315,92 @@ theorem wrapAs_plain (tl : List (BinOp × Term)) (h : ∀ ot ∈ tl, ot.1.isAs =
     simp only [wrapAs, ho, Bool.false_eq_true, if_false]
     rw [ih (fun ot hot => h ot (by simp [hot]))]
 
-/-- `Term::climb` on the in-order sequence of a well-parenthesised tree gives the tree -/
-theorem climb_erase {p : PT} (h : PT.Ok p) :
-    Term.climb p.head.erase (p.tail.map fun oq => (oq.1, oq.2.erase)) = p.erase := by
-  have hplain : ∀ ot ∈ (p.tail.map fun oq => (oq.1, oq.2.erase)), ot.1.isAs = false := by
+theorem wrapAs_append_plain (a b : List (BinOp × Term)) (h : ∀ ot ∈ a, ot.1.isAs = false) :
+    wrapAs (a ++ b) = a ++ wrapAs b := by
+  induction a with
+  | nil => rfl
+  | cons hd tl ih =>
+    obtain ⟨o, t⟩ := hd
+    have ho : o.isAs = false := h (o, t) (by simp)
+    simp only [List.cons_append, wrapAs, ho, Bool.false_eq_true, if_false]
+    rw [ih (fun ot hot => h ot (by simp [hot]))]
+
+def eraseTail (tl : List (BinOp × PT)) : List (BinOp × Term) := tl.map fun oq => (oq.1, oq.2.erase)
+
+theorem eraseTail_append (a b : List (BinOp × PT)) : eraseTail (a ++ b) = eraseTail a ++ eraseTail b := by
+  simp [eraseTail]
+
+theorem tail_plain (p : PT) (h : p.openAs = false) : ∀ ot ∈ eraseTail p.tail, ot.1.isAs = false := by
+  induction p with
+  | leaf a => simp [PT.tail, eraseTail]
+  | paren t _ => simp [PT.tail, eraseTail]
+  | bin l o r ihl ihr =>
+    obtain ⟨ho, hl, hr⟩ := openAs_bin h
     intro ot hot
-    simp only [List.mem_map] at hot
-    obtain ⟨oq, hoq, rfl⟩ := hot
-    exact ((ok_operands h).2 oq hoq).1
-  unfold Term.climb
-  rw [wrapAs_plain _ hplain]
-  have hf := climb_fold PT.erase Term.binop (E.atom p.head) (p.tail.map fun oq => (oq.1, E.atom oq.2))
-  have hflat := climb_flat raLvl p.toE (ok_canon h) (fun o _ => binop_homogeneous o)
-  rw [flat_toE] at hflat
-  simp only [] at hflat
-  rw [hflat] at hf
-  rw [erase_fold p, ← hf]
-  simp [E.fold, mapTail, List.map_map, Function.comp_def]
+    simp only [PT.tail, eraseTail_append, List.mem_append] at hot
+    rcases hot with hot | hot
+    · exact ihl hl ot hot
+    · simp only [eraseTail, List.map_cons, List.mem_cons] at hot
+      rcases hot with rfl | hot
+      · exact ho
+      · exact ihr hr ot hot
+
+/-- `Term::climb` on the in-order sequence of a well-parenthesised tree gives the tree: up to the
+first unparenthesised binding the table decides; the binding takes everything to its right -/
+theorem climb_erase_aux : ∀ (n : Nat) (p : PT), p.size ≤ n → PT.Ok p →
+    Term.climb p.head.erase (eraseTail p.tail) = p.erase ∧
+    wrapAs (eraseTail p.tail) = mapTail (E.fold PT.erase Term.binop) (flat p.toE).2 ∧
+    (flat p.toE).1 = .atom p.head := by
+  intro n
+  induction n with
+  | zero => intro p hp; cases p <;> simp [PT.size] at hp <;> omega
+  | succ n ih =>
+    intro p hp hok
+    have hW : wrapAs (eraseTail p.tail) = mapTail (E.fold PT.erase Term.binop) (flat p.toE).2 ∧
+        (flat p.toE).1 = .atom p.head := by
+      cases hok with
+      | leaf a _ => exact ⟨rfl, rfl⟩
+      | paren t _ => exact ⟨rfl, rfl⟩
+      | bin l o r hl hr hlo ho hokl hokr =>
+        simp only [PT.size] at hp
+        obtain ⟨_, hWl, hHl⟩ := ih l (by omega) hl
+        obtain ⟨hMr, hWr, hHr⟩ := ih r (by omega) hr
+        have hlp := tail_plain l hlo
+        rw [wrapAs_plain _ hlp] at hWl
+        simp only [PT.tail, PT.head, eraseTail_append, PT.toE]
+        rw [wrapAs_append_plain _ _ hlp]
+        split
+        · rename_i hisas
+          refine ⟨?_, by simp only [flat]; exact hHl⟩
+          have e : eraseTail ((o, r.head) :: r.tail) = (o, r.head.erase) :: eraseTail r.tail := rfl
+          rw [e]
+          simp only [wrapAs, hisas, if_true, flat, mapTail, List.map_append, List.map_cons, List.map_nil, E.fold]
+          have hMr' : climb Term.binop r.head.erase (wrapAs (eraseTail r.tail)) = r.erase := hMr
+          rw [hMr']
+          congr 1
+        · rename_i hnot
+          have hisas : o.isAs = false := by simpa using hnot
+          refine ⟨?_, by simp only [flat]; exact hHl⟩
+          have e : eraseTail ((o, r.head) :: r.tail) = (o, r.head.erase) :: eraseTail r.tail := rfl
+          rw [e]
+          simp only [wrapAs, hisas, Bool.false_eq_true, if_false, flat, mapTail, List.map_append, List.map_cons]
+          rw [hWr, hHr]
+          congr 1
+    refine ⟨?_, hW.1, hW.2⟩
+    have hf := climb_fold PT.erase Term.binop (flat p.toE).1 (flat p.toE).2
+    have hflat := climb_flat raLvl p.toE (ok_canon hok) (fun o _ => binop_homogeneous o)
+    rw [hflat] at hf
+    unfold Term.climb
+    rw [hW.1, erase_fold p, ← hf, hW.2]
+    rfl
+
+theorem climb_erase {p : PT} (h : PT.Ok p) :
+    Term.climb p.head.erase (p.tail.map fun oq => (oq.1, oq.2.erase)) = p.erase :=
+  (climb_erase_aux p.size p (Nat.le_refl _) h).1
 
 /-! ### the parser on printed trees -/
 
-theorem follow_tail (tl : List (BinOp × PT)) (hpl : ∀ oq ∈ tl, oq.1.plain) {rest : List Token} (hr : Closing rest) :
+theorem follow_tail (tl : List (BinOp × PT)) (hpl : ∀ oq ∈ tl, oq.1.printable) {rest : List Token} (hr : Closing rest) :
     Follow (tailToks tl ++ rest) := by
   cases tl with
   | nil => simpa [tailToks] using closing_follow hr
@@ -318,7 +411,7 @@ theorem follow_tail (tl : List (BinOp × PT)) (hpl : ∀ oq ∈ tl, oq.1.plain) 
     exact hs
 
 theorem opAtoms_tail (M : Nat) (tl : List (BinOp × PT)) {rest : List Token} (hr : Closing rest)
-    (hall : ∀ oq ∈ tl, oq.1.plain ∧ ∀ g, M ≤ g → ∀ rest', Follow rest' →
+    (hall : ∀ oq ∈ tl, oq.1.printable ∧ ∀ g, M ≤ g → ∀ rest', Follow rest' →
       atom g (oq.2.toks ++ rest') = some (oq.2.erase, rest')) :
     ∀ G acc, tl.length + M + 2 ≤ G →
       opAtoms G true (tailToks tl ++ rest) acc = some (acc ++ tl.map (fun oq => (oq.1, oq.2.erase)), rest) := by
@@ -330,15 +423,15 @@ theorem opAtoms_tail (M : Nat) (tl : List (BinOp × PT)) {rest : List Token} (hr
   | cons hd tl ih =>
     intro G acc hG
     obtain ⟨o, q⟩ := hd
-    obtain ⟨g, rfl⟩ : ∃ g, G = g + 2 := ⟨G - 2, by simp at hG; omega⟩
+    obtain ⟨g, rfl⟩ : ∃ g, G = g + 3 := ⟨G - 3, by simp at hG; omega⟩
     have ho := (hall (o, q) (by simp)).1
     have hq := (hall (o, q) (by simp)).2
-    have hall' : ∀ oq ∈ tl, oq.1.plain ∧ ∀ g, M ≤ g → ∀ rest', Follow rest' →
+    have hall' : ∀ oq ∈ tl, oq.1.printable ∧ ∀ g, M ≤ g → ∀ rest', Follow rest' →
         atom g (oq.2.toks ++ rest') = some (oq.2.erase, rest') := fun oq h => hall oq (by simp [h])
     have hfol : Follow (tailToks tl ++ rest) := follow_tail tl (fun oq h => (hall' oq h).1) hr
     simp only [List.length_cons] at hG
-    have hatom := hq (g + 1) (by omega) (tailToks tl ++ rest) hfol
-    have hrec := ih hall' (g + 1) (acc ++ [(o, q.erase)]) (by omega)
+    have hatom := hq (g + 2) (by omega) (tailToks tl ++ rest) hfol
+    have hrec := ih hall' (g + 2) (acc ++ [(o, q.erase)]) (by omega)
     simp only [tailToks, List.append_assoc]
     rw [opAtoms, op_toks g o ho]
     simp only [hatom, hrec, List.map_cons, List.append_assoc, List.singleton_append]
@@ -370,7 +463,7 @@ theorem term_toks : ∀ (n : Nat) (p : PT), p.size ≤ n → PT.Ok p → ∀ F, 
         have hin := ih t (by omega) ht (f + 3) (by omega) [.sym [')']] (by simp [Closing])
         simpa [PT.toks, PT.erase] using atom_paren f t.toks t.erase hfol hin
     obtain ⟨f, rfl⟩ : ∃ f, F = f + 2 := ⟨F - 2, by have := hsz.1; omega⟩
-    have hpl : ∀ oq ∈ p.tail, oq.1.plain := fun oq h => (hops.2 oq h).1
+    have hpl : ∀ oq ∈ p.tail, oq.1.printable := fun oq h => (hops.2 oq h).1
     have hfol : Follow (tailToks p.tail ++ rest) := follow_tail p.tail hpl hrest
     have hhead := hoperand p.head hops.1 hsz.1 f (by omega) (tailToks p.tail ++ rest) hfol
     have htail := opAtoms_tail (9 * p.size - p.tail.length - 4) p.tail hrest
@@ -387,7 +480,7 @@ theorem size_le_sizes {p : PT} (h : PT.Ok p) : p.size ≤ Token.sizes p.toks := 
   induction h with
   | leaf a _ => cases a <;> simp [PT.size, PT.toks, Leaf.tok, Token.sizes, Token.size]
   | paren t _ ih => simp [PT.size, PT.toks, Token.sizes, Token.size, sizes_append]; omega
-  | bin l o r _ _ ho _ _ ihl ihr =>
+  | bin l o r _ _ _ ho _ _ ihl ihr =>
     obtain ⟨t, r', ht, hs⟩ := toks_head_stop o ho
     have h1 : 1 ≤ Token.sizes o.toks := by
       rw [ht]; cases t <;> simp [Token.sizes, Token.size, stopTok] at hs ⊢ <;> omega
